@@ -100,7 +100,13 @@ def run(ctx):
                        'the predefined catalogue is covered by C20 (Scale vectors), not here']
     calcmodel.laws(ctx, 'conv')
     calccheck.run_programs(ctx, programs(ctx), 'convert', sigfn=sig)
+    if ctx.tier == 'thorough':
+        from checks import bcalccheck
+        bcalccheck.repo_suite(ctx, {'Convert'})
 
 
 def replay(ctx, rp):
+    if str(rp['replay'].get('kind')).startswith('bcalc'):
+        from checks import bcalccheck
+        return bcalccheck.replay(ctx, rp)
     calccheck.replay(ctx, rp, sig)
